@@ -95,7 +95,7 @@ def probe(raw, deg, targets=None):
     from eko import interpolation
 
     rec = {"kind": "probe", "raw": [rj(x) for x in raw], "deg": int(deg), "err": "",
-           "nonfinite": False, "areas": [], "pts": [], "vals": [], "tgts": []}
+           "nonfinite": False, "offgrid": False, "areas": [], "pts": [], "vals": [], "tgts": []}
     try:
         xg = interpolation.XGrid([float(x) for x in raw], log=False)
         disp = interpolation.InterpolatorDispatcher(xg, deg, mode_N=False)
@@ -105,11 +105,11 @@ def probe(raw, deg, targets=None):
     try:
         return _probe_body(rec, raw, deg, targets, disp)
     except _NonFinite:
-        return {"kind": "probe", "raw": rec["raw"], "deg": int(deg), "err": "", "nonfinite": True,
+        return {"kind": "probe", "raw": rec["raw"], "deg": int(deg), "err": "", "nonfinite": True, "offgrid": False,
                 "areas": [], "pts": [], "vals": [], "tgts": []}, 0
     except Exception as ex:  # noqa: BLE001 - an accepted grid that cannot be evaluated
         return {"kind": "probe", "raw": rec["raw"], "deg": int(deg), "err": type(ex).__name__ + "-on-use",
-                "nonfinite": False, "areas": [], "pts": [], "vals": [], "tgts": []}, 0
+                "nonfinite": False, "offgrid": False, "areas": [], "pts": [], "vals": [], "tgts": []}, 0
 
 
 class _NonFinite(Exception):
@@ -121,6 +121,12 @@ def _finite(v):
     if not math.isfinite(v):
         raise _NonFinite()
     return v
+
+
+def _off_lattice(v, maxden, scale):
+    """True if v is farther than 1e-6 * scale from every fraction with denominator <= maxden."""
+    fv = F(float(v))
+    return abs(float(fv - fv.limit_denominator(max(int(maxden), 1)))) > 1e-6 * max(float(scale), 1e-300)
 
 
 def _probe_body(rec, raw, deg, targets, disp):
@@ -149,6 +155,7 @@ def _probe_body(rec, raw, deg, targets, disp):
                 f = recover(c, maxden * 4, 64 * EPS * max(cmax, 1e-300))
                 if f is None:
                     unresolved += 1
+                    rec["offgrid"] = rec["offgrid"] or _off_lattice(c, maxden * 4, cmax)
                     f = F(float(c)).limit_denominator(maxden * 4)
                 coefs.append(f)
             arecs.append({
@@ -170,6 +177,7 @@ def _probe_body(rec, raw, deg, targets, disp):
         maxden = djmax * int((x * lcm_den).denominator) ** deg
         f = recover(v, maxden, 64 * EPS * max(scale, 1.0))
         if f is None:
+            rec["offgrid"] = rec["offgrid"] or _off_lattice(v, maxden, max(scale, 1.0))
             return None
         return f
 
@@ -198,6 +206,7 @@ def _probe_body(rec, raw, deg, targets, disp):
                 f = recover(v, djmax * int((x * lcm_den).denominator) ** deg, 64 * EPS * scale)
                 if f is None:
                     unresolved += 1
+                    rec["offgrid"] = rec["offgrid"] or _off_lattice(v, djmax * int((x * lcm_den).denominator) ** deg, scale)
                     f = F(0)
                 row.append(rj(f))
             rows.append(row)
